@@ -263,6 +263,12 @@ type IterOpts struct {
 	// InfoFirst: Reader.Info() is called before Reader.Messages() on the same Reader (its error, e.g. on a
 	// non-seekable source, is ignored)
 	InfoFirst bool
+	// MetadataFirst: with InfoFirst, every metadata record the summary indexes is also fetched with
+	// Reader.GetMetadata before Reader.Messages() is called
+	MetadataFirst bool
+	// SecondIterator: after the iterator under observation has been obtained, Reader.Messages() is called
+	// once more with default options and its result is discarded unread
+	SecondIterator bool
 	// Sample is called after every successful NextInto (C20 memory monitor).
 	Sample func(it mcap.MessageIterator, n int)
 }
@@ -285,12 +291,23 @@ func ReadMessages(r io.Reader, o IterOpts) *IterResult {
 			}))
 		}
 		if o.InfoFirst {
-			_, _ = reader.Info()
+			info, _ := reader.Info()
+			if o.MetadataFirst && info != nil {
+				for _, mi := range info.MetadataIndexes {
+					if _, err := reader.GetMetadata(mi.Offset); err != nil {
+						res.OpenErr = fmt.Errorf("GetMetadata before Messages: %w", err)
+						return
+					}
+				}
+			}
 		}
 		it, err := reader.Messages(opts...)
 		if err != nil {
 			res.OpenErr = err
 			return
+		}
+		if o.SecondIterator {
+			_, _ = reader.Messages()
 		}
 		if o.WantInfo {
 			res.Info, res.InfoErr = reader.Info()
